@@ -25,6 +25,8 @@ from typing_extensions import (
     List,
     Iterable,
     Tuple,
+    get_origin,
+    get_type_hints,
 )
 
 from ..utils import recursive_subclasses
@@ -276,10 +278,30 @@ class FromDAOState:
         Assign an attribute of a reconstructed object; instances of frozen dataclasses are assigned the way their own
         ``__init__`` assigns them.
         """
+        container = declared_container_types(type(result)).get(key)
+        if container is not None and isinstance(value, list):
+            value = container(value)
         try:
             setattr(result, key, value)
         except FrozenInstanceError:
             object.__setattr__(result, key, value)
+
+
+@lru_cache(maxsize=None)
+def declared_container_types(cls: Type) -> Dict[str, Type]:
+    """
+    :param cls: A class with annotated attributes.
+    :return: The attributes that are declared as tuple, set or frozenset, with that container type.
+    """
+    try:
+        hints = get_type_hints(cls)
+    except Exception:
+        return {}
+    return {
+        name: get_origin(hint)
+        for name, hint in hints.items()
+        if get_origin(hint) in (tuple, set, frozenset)
+    }
 
 
 class HasGeneric(Generic[T]):
@@ -707,6 +729,9 @@ class DataAccessObject(HasGeneric[T]):
             argument_names, state
         )
 
+        for key, container in declared_container_types(self.original_class()).items():
+            if isinstance(kwargs.get(key), list):
+                kwargs[key] = container(kwargs[key])
         init_args = {
             **base_kwargs,
             **{key: value for key, value in kwargs.items() if key in argument_names},
